@@ -348,6 +348,11 @@ func rewriteFile(path, rel string, raw []byte, mode string) ([]byte, error) {
 					id.Name = "simrt"
 					se.Sel.Name = "TLSDialer"
 					hadDialer = true
+				} else if se.Sel.Name == "Conn" {
+					// tls.Conn -> simrt.TLSConn: a simulated listener in TLS mode hands these out
+					id.Name = "simrt"
+					se.Sel.Name = "TLSConn"
+					hadDialer = true
 				} else {
 					usesTLS = true
 				}
